@@ -44,6 +44,11 @@ def state_size(ranges):
     return sum(1 if r[4] else max(0, r[2] - r[1] + 1) for r in ranges)
 
 
+def sane(ranges):
+    """states the reference semantics is applied to: lo <= hi < 2^64 - 1 in every range, moderate size"""
+    return all(r[4] or (r[1] <= r[2] < 2 ** 64 - 1) for r in ranges) and state_size(ranges) < 300000
+
+
 def split_tokens(expr):
     """documented tokenisation: separators outside brackets; returns None if brackets are unbalanced in a way the
     documented grammar does not define (negative depth / nesting)"""
@@ -71,7 +76,7 @@ def split_tokens(expr):
     return toks
 
 
-ITEM = re.compile(rb"^([0-9]{1,19})(?:-([0-9]{1,19}))?$")
+ITEM = re.compile(rb"([0-9]+)(?:-([0-9]+))?")
 
 
 def ref_expand(expr):
@@ -83,7 +88,7 @@ def ref_expand(expr):
         return None
     if toks == "unbalanced":
         # a lone "[" without "]" in the last token: documented as an error
-        return "error" if expr.count(b"[") == expr.count(b"]") + 1 and b"]" not in expr[expr.rfind(b"["):] else None
+        return "error" if expr.count(b"[") == 1 and expr.count(b"]") == 0 else None
     out = []
     for t in toks:
         if b"[" not in t and b"]" not in t:
@@ -91,7 +96,7 @@ def ref_expand(expr):
                 return None
             out.append(t)
             continue
-        m = re.match(rb"^([^\[\]]*)\[([^\[\]]*)\]([^\[\]]*)$", t)
+        m = re.fullmatch(rb"([^\[\]]*)\[([^\[\]]*)\]([^\[\]]*)", t, re.S)
         if not m:
             return None
         pfx, items, sfx = m.group(1), m.group(2), m.group(3)
@@ -102,11 +107,13 @@ def ref_expand(expr):
             return None
         names = []
         for p in parts:
-            mm = ITEM.match(p)
+            mm = ITEM.fullmatch(p)
             if not mm:
                 return None
             lo = int(mm.group(1)); hi = int(mm.group(2)) if mm.group(2) is not None else lo
             w = len(mm.group(1))
+            if hi >= 2 ** 64 - 1:
+                return None
             if lo > hi:
                 return "error"
             if hi - lo >= MAX_RANGE:
@@ -268,8 +275,8 @@ def monitor(ops, tr):
         kind, d = op[0], op[1]
         pre = slots[d]
         post = states.get(d, pre)
-        pre_e = py_expand(pre["ranges"]) if pre and state_size(pre["ranges"]) < 300000 else None
-        post_e = py_expand(post["ranges"]) if post and state_size(post["ranges"]) < 300000 else None
+        pre_e = py_expand(pre["ranges"]) if pre and sane(pre["ranges"]) else None
+        post_e = py_expand(post["ranges"]) if post and sane(post["ranges"]) else None
 
         def bad(clause, site, msg):
             raise Viol(clause, site, "op #%d %s: %s" % (k, fmt_op(op), msg))
@@ -305,7 +312,7 @@ def monitor(ops, tr):
         elif kind == "L":
             s = op[2]
             src = slots[s]
-            if pre_e is not None and src is not None and s != d and state_size(src["ranges"]) < 300000:
+            if pre_e is not None and src is not None and s != d and sane(src["ranges"]):
                 checks += 1
                 src_e = py_expand(src["ranges"])
                 if post_e != pre_e + src_e:
@@ -314,7 +321,7 @@ def monitor(ops, tr):
                     bad("push_list", "push_list_source", "source list changed its names")
         elif kind == "Y":
             src = slots[op[2]]
-            if src is not None and state_size(src["ranges"]) < 300000:
+            if src is not None and sane(src["ranges"]):
                 checks += 1
                 if post is None or post_e != py_expand(src["ranges"]) or post["nhosts"] != src["nhosts"]:
                     bad("copy", "copy", "copy denotes %s, source %s" % (brief(post_e), brief(py_expand(src["ranges"]))))
@@ -430,7 +437,7 @@ def monitor(ops, tr):
             nh_ok[op[2]] = True
         for s, st in states.items():
             slots[s] = st
-            if st is not None and nh_ok[s] and state_size(st["ranges"]) < 2 ** 31 and all(r[4] or r[1] <= r[2] for r in st["ranges"]):
+            if st is not None and nh_ok[s] and sane(st["ranges"]):
                 checks += 1
                 if st["nhosts"] != state_size(st["ranges"]):
                     bad("count", "nhosts", "nhosts field %d but the array denotes %d names" % (st["nhosts"], state_size(st["ranges"])))
@@ -523,13 +530,6 @@ def gen_expr(rng, pfxs=None):
         toks.append(pf + b"[" + ",".join(items).encode() + b"]" + sfx)
     sep = rng.choice([b",", b",", b" ", b"\t", b", "])
     return sep.join(toks)
-
-
-def gen_big_expr(rng):
-    k = rng.choice([MAX_RANGE - 1, MAX_RANGE, MAX_RANGE + 1])
-    lo = rng.choice([0, 1, 100])
-    sfx = rng.choice([b"", b"", b"x"])
-    return b"t[%d-%d]%s" % (lo, lo + k - 1, sfx)
 
 
 MALFORMED = [b"t[5-1]", b"t[1", b"t1]", b"t[1]]", b"t[[1]]", b"t[]", b"t[,]", b"t[1,]", b"t[,1]", b"t[1-]", b"t[a]", b"t[1x-5]", b"t[1-5x]",
@@ -658,16 +658,22 @@ def gen_case(rng, kind):
 
 
 def big_case(rng):
-    """MAX_RANGE - 1 .. + 1 hosts in one bracket (no sort: the model's insertion sort is quadratic)"""
-    if rng.random() < 0.3:       # MAX_RANGES - 1 .. + 1 items in one bracket
+    """MAX_RANGE - 1 .. + 1 hosts in one bracket, MAX_RANGES - 1 .. + 1 items in one bracket (no sort: the model's
+    insertion sort and its list-based push are quadratic)"""
+    r = rng.random()
+    if r < 0.3:
         k = rng.choice([MAX_RANGES - 1, MAX_RANGES, MAX_RANGES + 1])
-        e = b"t[" + b",".join([b"1"] * k) + b"]"
-        return [("C", 0, e), ("K", 0), ("CN", 1), ("P", 1, e), ("K", 1), ("RT", 0, 2)]
-    e = gen_big_expr(rng)
-    r = ref_expand(e)
+        e = b"t[" + b",".join(b"%d" % i for i in range(1, k + 1)) + b"]"      # consecutive: joins into one range
+        return [("C", 0, e), ("K", 0), ("CN", 1), ("P", 1, e), ("K", 1), ("R", 0, 0), ("RT", 0, 2)]
+    k = rng.choice([MAX_RANGE - 1, MAX_RANGE, MAX_RANGE + 1])
+    lo = rng.choice([0, 1, 100])
+    if r < 0.4:
+        return [("C", 0, b"t[%d-%d]x" % (lo, lo + k - 1)), ("K", 0)]
+    e = b"t[%d-%d]" % (lo, lo + k - 1)
+    ref = ref_expand(e)
     ops = [("C", 0, e), ("K", 0)]
-    if isinstance(r, list):
-        ops += [("F", 0, r[0]), ("F", 0, r[-1]), ("F", 0, r[len(r) // 2]), ("T", 0, len(r) - 1), ("T", 0, len(r)), ("D", 0, r[len(r) // 2])]
+    if isinstance(ref, list):
+        ops += [("F", 0, ref[0]), ("F", 0, ref[-1]), ("F", 0, ref[len(ref) // 2]), ("T", 0, len(ref) - 1), ("T", 0, len(ref)), ("D", 0, ref[len(ref) // 2])]
     ops += [("CN", 1), ("H", 1, b"t0"), ("P", 1, e), ("K", 1), ("R", 1, 0), ("RT", 1, 2), ("K", 2)]
     return ops
 
@@ -706,6 +712,14 @@ def roundtrip_case(rng):
     return ops
 
 
+def sanitize_case(ops):
+    """hostlist_nth on a numbered range whose prefix is far longer than its 80-byte stack buffer writes beyond the
+    sanitizer's red zone (silent corruption of the caller's frame instead of a report): such cases keep everything but
+    the nth calls, so that the tie stays deterministic (prefixes of 80..100 bytes, which do hit the red zone, are kept)"""
+    longtok = any(isinstance(x, bytes) and any(len(t) > 100 for t in re.split(rb"[\t, \[\]]", x)) for o in ops for x in o[2:])
+    return [o for o in ops if not (longtok and o[0] == "T")]
+
+
 def generate(rng, n):
     cases = []
     for i in range(n):
@@ -726,7 +740,7 @@ def generate(rng, n):
             kind, ops = "exotic", gen_case(rng, "exotic")
         else:
             kind, ops = "big", big_case(rng)
-        cases.append((kind, ops))
+        cases.append((kind, sanitize_case(ops)))
     return cases
 
 
@@ -882,6 +896,9 @@ def evaluate(ctx, V, impl, model, cases, record=True):
                 V.count("monitor_checks", nchecks)
         except Viol as v:
             nviol += 1
+            if any((x["clause"], x["site"]) == (v.clause, v.site) for x in V.violations):
+                V.count("violations_same_signature")
+                continue
 
             def fails(cand, v=v):
                 t = run_impl(impl, [("s", cand)]).get("s")
